@@ -222,6 +222,7 @@ type mHandle struct {
 	version int // committed version at lock-ok
 	blocked string // writer state that must make this op fail ("" = none), decided at the lock event
 	sawLock bool
+	lockSeen int
 	returned *agent.Event
 	cols    []string
 	key     []sq.Val
@@ -423,7 +424,7 @@ func (m *mWorld) writerStep(w *mWriter) {
 	}
 }
 
-var readerKinds = []string{"select", "selectdone", "rowid", "ixselect", "ixeq", "pk", "columns", "tscan"}
+var readerKinds = []string{"select", "selectdone", "rowid", "ixselect", "ixeq", "pk", "columns", "tscan", "drvselect"}
 
 func (m *mWorld) startOp(h *mHandle) {
 	s := m.s
@@ -456,6 +457,21 @@ func (m *mWorld) startOp(h *mHandle) {
 	case "tscan":
 		rq.Lock = true
 	case "columns":
+	case "drvselect":
+		// database/sql driver path: complete, Close after k rows, or cancel after k rows
+		switch s.Draw(3, "drvexit") {
+		case 1:
+			h.stopAt = 1 + s.Draw(15, "closeat")
+			rq.StopAt = h.stopAt
+			h.exit = "early-stop"
+			m.c.Fault("driver-close-at-k")
+		case 2:
+			h.stopAt = 1 + s.Draw(15, "cancelat")
+			rq.CancelAt = h.stopAt
+			h.exit = "early-stop"
+			m.c.Fault("driver-cancel-at-k")
+		}
+		m.c.Probe("driver-op")
 	}
 	if h.key != nil {
 		for _, v := range h.key {
@@ -482,7 +498,7 @@ func (m *mWorld) startOp(h *mHandle) {
 	if err != nil {
 		m.c.Troublef("agent start: %v", err)
 	}
-	h.busy, h.locked, h.pages, h.sawLock, h.blocked, h.returned = true, false, 0, false, "", nil
+	h.busy, h.locked, h.pages, h.sawLock, h.blocked, h.returned, h.lockSeen = true, false, 0, false, "", nil, 0
 	m.c.Log.Add(h.name, "start", "%s exit=%s -> %s", h.kind, h.exit, ev.Kind)
 	m.c.Note("%s: start %s (exit path %s)", h.name, h.kind, h.exit)
 }
@@ -496,11 +512,10 @@ func (m *mWorld) resumeUntil(h *mHandle, until string) {
 	// the lock attempt may happen inside this resume without being reported as
 	// its own event: the ground truth for it is the table as it is now (lock-step:
 	// no other actor moves during the resume)
-	var pre lockView
+	// (an operation can make several lock attempts: the driver looks the columns
+	// up in one transaction and scans in a second one; each attempt is judged)
 	preVersion := m.cur()
-	if !h.sawLock {
-		pre = m.view()
-	}
+	pre := m.view()
 	ev, err := h.ag.Call(agent.Req{Cmd: "resume", H: h.name, Until: until})
 	if err != nil {
 		m.c.Troublef("agent resume: %v", err)
@@ -508,7 +523,8 @@ func (m *mWorld) resumeUntil(h *mHandle, until string) {
 	h.locked, h.pages = ev.Locked, ev.Pages
 	m.c.Log.Add(h.name, "resume", "%s -> %s n=%d skipped=%d pages=%d locked=%v", until, ev.Kind, ev.N, ev.Skipped, ev.Pages, ev.Locked)
 	m.c.Note("%s: resume until %s -> %s (pages so far %d)", h.name, until, ev.Kind, ev.Pages)
-	if !h.sawLock && ev.LockOutcome != "" {
+	if ev.LockEvents > h.lockSeen {
+		h.lockSeen = ev.LockEvents
 		m.atLockEvent(h, "lock-"+ev.LockOutcome, ev.Err, pre, preVersion)
 	}
 	if ev.Kind == "returned" {
@@ -525,6 +541,7 @@ func (m *mWorld) atLockEvent(h *mHandle, kind string, errText string, v lockView
 	h.version = version
 	detail := map[string]interface{}{"handle": h.name, "op": h.kind, "kernel": fmtLocks(v), "writers": m.writerStates(v)}
 	if kind == "lock-ok" {
+		h.blocked = ""
 		if blocked {
 			h.blocked = why
 			m.c.Fail("read-lock-granted-under-"+why, "lock-ok-under-"+why, fmt.Sprintf("%s obtained its read lock although another process holds %s", h.name, why), detail)
@@ -565,7 +582,7 @@ func fmtLocks(v lockView) []string {
 func (m *mWorld) expectRows(h *mHandle, ver int) ([][]sq.Val, bool) {
 	rows := m.versions[ver]
 	switch h.kind {
-	case "select", "selectdone":
+	case "select", "selectdone", "drvselect":
 		return rows, true
 	case "tscan":
 		var out [][]sq.Val
@@ -619,27 +636,31 @@ func (m *mWorld) atReturn(h *mHandle, ev *agent.Event) {
 	if ev.Panic != "" && ev.Panic != "injected" {
 		c.Fail("panic", "panic:"+h.kind, fmt.Sprintf("%s %s panicked: %s", h.name, h.kind, firstLine(ev.Panic)), detail)
 	}
-	// I3: every page read lies between lock-ok and unlock
+	// I3: every page read and every callback lies inside a lock-ok .. unlock interval
+	// (an operation may have several: the driver locks once for the column lookup
+	// and once for the scan)
 	lockAt, unlockAt := -1, -1
+	inside := false
 	for i, t := range ev.Trace {
 		switch {
-		case t == "lock-ok" && lockAt < 0:
-			lockAt = i
+		case t == "lock-ok":
+			inside = true
+			if lockAt < 0 {
+				lockAt = i
+			}
 		case t == "unlock":
+			inside = false
 			unlockAt = i
-		}
-	}
-	for i, t := range ev.Trace {
-		if strings.HasPrefix(t, "page") || t == "callback" {
-			if lockAt < 0 || i < lockAt || (unlockAt >= 0 && i > unlockAt) {
-				c.Fail("read-outside-lock", "I3:"+strings.Fields(t)[0]+"-outside-lock", fmt.Sprintf("%s %s: trace event %q (#%d) lies outside lock-ok(#%d)..unlock(#%d)", h.name, h.kind, t, i, lockAt, unlockAt), detail)
-				break
+		case strings.HasPrefix(t, "page") || t == "callback":
+			if !inside {
+				c.Fail("read-outside-lock", "I3:"+strings.Fields(t)[0]+"-outside-lock", fmt.Sprintf("%s %s: trace event %q (#%d) lies outside every lock-ok..unlock interval", h.name, h.kind, t, i), detail)
 			}
 		}
 	}
-	if lockAt >= 0 && unlockAt < 0 {
+	if inside {
 		c.Fail("no-unlock", "I2:no-unlock-event", fmt.Sprintf("%s %s (exit path %s) returned without unlocking", h.name, h.kind, h.exit), detail)
 	}
+	_ = unlockAt
 	// C07 oracle: blocked => error and no callback; otherwise committed rows
 	if h.blocked != "" {
 		if ev.OK || ev.Calls > 0 {
@@ -677,7 +698,7 @@ func (m *mWorld) atReturn(h *mHandle, ev *agent.Event) {
 	if !ok {
 		return
 	}
-	if h.kind == "selectdone" && h.stopAt < len(want) {
+	if (h.kind == "selectdone" || h.kind == "drvselect") && h.stopAt > 0 && h.stopAt < len(want) {
 		want = want[:h.stopAt]
 	}
 	if eq, at := rowsEq(want, rows, false); !eq {
@@ -685,7 +706,7 @@ func (m *mWorld) atReturn(h *mHandle, ev *agent.Event) {
 		is := -1
 		for v := range m.versions {
 			if w2, _ := m.expectRows(h, v); w2 != nil {
-				if h.kind == "selectdone" && h.stopAt < len(w2) {
+				if (h.kind == "selectdone" || h.kind == "drvselect") && h.stopAt > 0 && h.stopAt < len(w2) {
 					w2 = w2[:h.stopAt]
 				}
 				if e2, _ := rowsEq(w2, rows, false); e2 {
